@@ -26,6 +26,9 @@ type RKid struct {
 	How     string `json:"how"`     // stop | poison: how a third party stops the first holder of the id
 	Respawn bool   `json:"respawn"` // the parent spawns the id again while the first holder is inside Stopped
 	Late    bool   `json:"late"`    // ... and the first holder leaves its Stopped handler only after that
+	// DupFirst: before anything else the parent spawns the id once more while its holder is alive: the
+	// spawn is refused, the holder stays what the parent lists - and is what leaves the list when it stops
+	DupFirst bool `json:"dup_first,omitempty"`
 }
 
 type RCase struct {
@@ -113,6 +116,18 @@ func runRespawn(c RCase) (map[string]int, error) {
 		return l, err
 	}
 	for i, k := range c.Kids {
+		if k.DupFirst {
+			ran := false
+			if err := ask(func(pc *actor.Context) {
+				pc.SpawnChild(func() actor.Receiver { ran = true; return recvFnT(func(*actor.Context) {}) }, "kid", actor.WithID(fmt.Sprint(i)))
+			}); err != nil {
+				return nil, err
+			}
+			if ran {
+				return nil, fmt.Errorf("child %d: a SpawnChild under the id of a live child ran the Producer", i)
+			}
+			feat["refused-duplicate-over-a-live-child"]++
+		}
 		var done <-chan struct{}
 		if k.How == "stop" {
 			done = e.Stop(first[i].pid).Done()
@@ -208,6 +223,10 @@ func runRespawn(c RCase) (map[string]int, error) {
 	return feat, nil
 }
 
+type recvFnT func(*actor.Context)
+
+func (r recvFnT) Receive(c *actor.Context) { r(c) }
+
 func TestRespawnChild(t *testing.T) {
 	st := vh.Test("TestRespawnChild")
 	rapid.Check(t, func(t *rapid.T) {
@@ -215,9 +234,10 @@ func TestRespawnChild(t *testing.T) {
 		n := rapid.IntRange(1, 3).Draw(t, "kids")
 		for i := 0; i < n; i++ {
 			c.Kids = append(c.Kids, RKid{
-				How:     rapid.SampledFrom([]string{"stop", "poison"}).Draw(t, "how"),
-				Respawn: rapid.IntRange(0, 3).Draw(t, "respawn") > 0,
-				Late:    rapid.Bool().Draw(t, "late"),
+				How:      rapid.SampledFrom([]string{"stop", "poison"}).Draw(t, "how"),
+				Respawn:  rapid.IntRange(0, 3).Draw(t, "respawn") > 0,
+				Late:     rapid.Bool().Draw(t, "late"),
+				DupFirst: rapid.IntRange(0, 2).Draw(t, "dup_first") == 0,
 			})
 		}
 		st.Begin(c)
